@@ -256,7 +256,10 @@ func TestC41(t *testing.T) {
 	segs := []string{"a", "sub", "deep", "b", "c", "x", "..", "..", ".", "", "link", "flink", "missing", "root", "root-evil", "secret", "rootx", "other"}
 	tails := []string{"-evil/secret", "x", "/", "/.", "/..", "-evil/../root/a"}
 	noise := []string{".", "", "sub/..", "missing/..", "sub/deep/../..", "."}
-	n := e.Pick(1500, 30000)
+	n := e.Pick(1500, 12000)
+	if strings.HasPrefix(filepath.Base(e.Out), "search") {
+		n = 3000 // the driver's search for a concrete failing input after a break
+	}
 	for i := 0; i < n; i++ {
 		root := roots[e.Rng.Intn(len(roots))]
 		var b strings.Builder
